@@ -35,7 +35,7 @@ from octave_mcp.core.emitter import emit
 from octave_mcp.core.gbnf_compiler import GBNFCompiler
 from octave_mcp.core.hydrator import resolve_hermetic_standard
 from octave_mcp.core.lexer import LexerError, tokenize
-from octave_mcp.core.parser import ParserError, parse, parse_with_warnings
+from octave_mcp.core.parser import ParserError, _strip_yaml_frontmatter, parse, parse_with_warnings
 from octave_mcp.core.repair import repair
 from octave_mcp.core.repair_log import LiteralZoneRepairLog
 from octave_mcp.core.schema_extractor import SchemaDefinition
@@ -1323,8 +1323,9 @@ class WriteTool(BaseTool):
 
             else:
                 # Strict tokenization + strict parse
+                # (YAML frontmatter is not OCTAVE: strip it as parse() does, keeping line numbers)
                 try:
-                    _, tokenize_repairs = tokenize(parse_input)
+                    _, tokenize_repairs = tokenize(_strip_yaml_frontmatter(parse_input)[0])
                 except Exception as e:
                     return self._error_envelope(
                         target_path,
